@@ -7,7 +7,7 @@
    All theorems hold for every configuration, every initial state with a non-negative provision and every history. *)
 From Coq Require Import ZArith List Bool.
 Import ListNotations.
-From Osmo Require Import Base.DecModel C18.Model C18.Proofs C18.ProofsRun C18.Witness C18.Liveness.
+From Osmo Require Import Base.DecModel C18.Model C18.Proofs C18.ProofsRun C18.Witness C18.Liveness C18.AllOk.
 Open Scope Z_scope.
 
 (* ------------------------------------------------------------------------------------------------------------ *)
@@ -93,6 +93,29 @@ Theorem C18_reduction_exactly_at : forall cfg s e0 n,
   s_prov after = iter_reduce (Z.to_nat (reductions_until cfg e)) (p_factor cfg) (s_prov s).
 Proof. exact reduction_exactly_at. Qed.
 Print Assumptions C18_reduction_exactly_at.
+
+(* the same with hypotheses on the initial state only: no or one pool-incentives record, creditable receivers, non-negative
+   mint / pool-incentives balances and a vesting balance of at least (n+1) first developer shares make every one of the
+   n+1 consecutive calls succeed (provisions never grow: factor <= 1) *)
+Theorem C18_funded_history_succeeds : forall cfg, valid_cfg cfg -> simple_hook cfg -> no_blocked (p_recv cfg) ->
+  forall n s e0, funded cfg s (Z.of_nat n) -> all_ok cfg s (consec e0 n).
+Proof. exact funded_history_succeeds. Qed.
+Print Assumptions C18_funded_history_succeeds.
+Print funded.
+
+Theorem C18_schedule_from_initial_state : forall cfg s e0 n,
+  valid_cfg cfg -> simple_hook cfg -> no_blocked (p_recv cfg) ->
+  history_start_ok cfg s e0 -> funded cfg s (Z.of_nat (S n)) ->
+  let e := e0 + Z.of_nat n in
+  let before := run cfg s (consec e0 n) in
+  let after := run cfg s (consec e0 (S n)) in
+  p_start cfg <= e ->
+  (reduces cfg before e = true <-> exists k, 1 <= k /\ e = p_start cfg + k * p_period cfg) /\
+  s_prov after = (if reduces cfg before e then d_mul (s_prov before) (p_factor cfg) else s_prov before) /\
+  s_last after = p_start cfg + reductions_until cfg e * p_period cfg /\
+  s_prov after = iter_reduce (Z.to_nat (reductions_until cfg e)) (p_factor cfg) (s_prov s).
+Proof. exact schedule_from_initial_state. Qed.
+Print Assumptions C18_schedule_from_initial_state.
 
 (* bank_supply_delta and reported_supply_delta for one successful minting epoch:
    bank supply grows by minted - dev (the developer share is burnt and paid from the vesting account);
@@ -234,3 +257,8 @@ Example C18_nonvacuous_schedule_default_chain :
     = [false; true; false; true; false; true] /\
   s_prov (run nv0_cfg w_state (consec 1 6)) = 125000462500000000000000.
 Proof. exact nv0_schedule. Qed.
+
+(* the hypotheses of C18_schedule_from_initial_state are met by the F3 witness state for 1000 consecutive epochs *)
+Example C18_nonvacuous_funded : valid_cfg w_cfg /\ simple_hook w_cfg /\ no_blocked (p_recv w_cfg) /\
+  history_start_ok w_cfg w_state 1 /\ funded w_cfg w_state 1000.
+Proof. exact w_funded. Qed.
